@@ -94,6 +94,8 @@ def run(ctx):
                 try:
                     # reconstruct a value descriptor is not needed: classify on the type/codec by re-running the encoder-side predicates
                     fid = 'F01' if (cdc == 'CER' and _has_f01_shape(c.T)) else ('F24' if cdc in ('CER', 'DER') and _has_f24_shape(c.T) else None)
+                    if fid is None and cdc == 'CER' and _junk_in_tagged_any(c.T, a):
+                        fid = 'F61'
                     if fid is None and cdc == 'BER' and b'\x80' in r[1] and _has_f01_shape(c.T): fid = 'F01'
                 except Exception:
                     pass
@@ -205,6 +207,45 @@ def run(ctx):
         for i, cd in codes.items():
             if cd == 2: ctx.stats['model_declines'] += 1
             else: ctx.corr_fail('model and implementation disagree on an accepted input', meta[i])
+
+
+def _tlv_run(b):
+    """b is a sequence of complete definite-length TLVs, none of them the end-of-octets marker"""
+    i, n = 0, len(b)
+    while i < n:
+        first = b[i]; i += 1
+        if first & 0x1f == 0x1f:
+            while i < n and b[i] & 0x80: i += 1
+            i += 1
+        if i >= n: return False
+        l = b[i]; i += 1
+        if first == 0 and l == 0: return False
+        if l == 0x80: return False
+        if l & 0x80:
+            k = l & 0x7f
+            if i + k > n: return False
+            l = int.from_bytes(b[i:i + k], 'big'); i += k
+        i += l
+        if i > n: return False
+    return True
+
+
+def _junk_in_tagged_any(T, a):
+    """class predicate of finding F61: the decoded value holds, in a TAGGED ANY, octets that are not a run of complete
+    definite-length TLVs (the decoders take the contents of a definite-length tagged ANY unseen)"""
+    k = T[0]
+    if a is None or not isinstance(a, tuple): return False
+    if k in ('imp', 'exp'):
+        if gen.base_desc(T)[0] == 'any':
+            return a[0] == 'any' and not _tlv_run(bytes(a[1]))
+        return _junk_in_tagged_any(T[2], a)
+    if k in ('seq', 'set') and a[0] == 'rec':
+        return any(_junk_in_tagged_any(ft, x) for (_, ft), x in zip(T[1], a[1]) if x is not None)
+    if k in ('seqof', 'setof') and a[0] in ('list', 'bag'):
+        return any(_junk_in_tagged_any(T[1], x) for x in a[1])
+    if k == 'choice' and a[0] == 'ch':
+        return _junk_in_tagged_any(T[1][a[1]], a[2])
+    return False
 
 
 def _has_time(T):
